@@ -232,14 +232,27 @@ impl<SystemType : System> History<SystemType>
             Err(_) => return Err(HistoryError::CannotSerializeRuleHistory(rule_history_file_path)),
         };
 
+        /*  Write the whole content under a temporary name first, then move it into place, so that
+            being interrupted never leaves a truncated or half-written history file behind under
+            the real name (which would make every later build fail to read it). */
+        let temporary_file_path = format!("{}.partial", rule_history_file_path);
+
         let mut file =
-        match system.create_file(&rule_history_file_path)
+        match system.create_file(&temporary_file_path)
         {
             Ok(file) => file,
             Err(_error) => return Err(HistoryError::CannotWriteRuleHistoryFile(rule_history_file_path)),
         };
 
         match file.write_all(&content)
+        {
+            Ok(_) => {},
+            Err(_error) => return Err(HistoryError::CannotWriteRuleHistoryFile(rule_history_file_path)),
+        }
+
+        drop(file);
+
+        match system.rename(&temporary_file_path, &rule_history_file_path)
         {
             Ok(_) => Ok(()),
             Err(_error) => Err(HistoryError::CannotWriteRuleHistoryFile(rule_history_file_path)),
